@@ -9,6 +9,7 @@ package mailbox
 import (
 	"context"
 	"fmt"
+	"reflect"
 	"time"
 
 	"github.com/btcsuite/btcd/btcec/v2"
@@ -131,7 +132,7 @@ func c04Agree(rc *simrt.RunCtx, what, tamper string, sp hsSpec, cli, srv *party)
 	switch {
 	case cm.sendCipher.secretKey != sm.recvCipher.secretKey || cm.recvCipher.secretKey != sm.sendCipher.secretKey:
 		bad("keys", "their traffic keys are not complementary")
-	case cm.sendCipher.salt != sm.recvCipher.salt || cm.recvCipher.salt != sm.sendCipher.salt:
+	case !reflect.DeepEqual(cm.sendCipher.salt, sm.recvCipher.salt) || !reflect.DeepEqual(cm.recvCipher.salt, sm.sendCipher.salt):
 		bad("keys", "the rotation salts of their traffic keys are not complementary (the streams part at the first key rotation)")
 	case cm.sendCipher.nonce != sm.recvCipher.nonce || cm.recvCipher.nonce != sm.sendCipher.nonce:
 		bad("keys", "their record counters differ right after the handshake")
